@@ -58,10 +58,28 @@ impl ReceiverFlowS {
 pub fn answer_discarded(e: &Option<LinkFlow>)
     requires *e is None,        // [C08.listener.replayed-flow-answered] an answer the link owes to a replayed flow is written, not dropped: a drain request pipelined behind the attach is applied (delivery-count advanced over all credit) but the receiver is never told, so every later grant of no more than that credit computes to zero and send() hangs
 {}
-pub enum LinkRelay { Sender { flow_state: SenderFlowS, output_handle: OutputHandle }, Receiver { flow_state: ReceiverFlowS, output_handle: OutputHandle } }
+opaque!(ReceiverSettleMode, AttachRest);
+pub enum LinkRelay { Sender { flow_state: SenderFlowS, output_handle: OutputHandle, receiver_settle_mode: ReceiverSettleMode }, Receiver { flow_state: ReceiverFlowS, output_handle: OutputHandle } }
+/// Attach: the three fields the session reads; the rest is one opaque field
+pub struct Attach { pub name: String, pub handle: Handle, pub rcv_settle_mode: ReceiverSettleMode, pub rest: AttachRest }
+pub enum LinkFrame { Attach(Attach) }
+pub struct ChanSendError { pub _p: u8 }
+/// tokio mpsc::Sender<T> (R9): ghost trace of what was queued
+pub struct ChanSender<T> { pub sent: Ghost<Seq<T>> }
+impl<T> ChanSender<T> {
+    #[verifier::external_body]
+    pub fn send(&mut self, v: T) -> (r: Result<(), ChanSendError>)
+        ensures r is Ok ==> final(self).sent@ == old(self).sent@.push(v), r is Err ==> final(self).sent@ == old(self).sent@,
+    { unimplemented!() }
+}
+impl LinkRelay {
+    /// LinkRelay::send (unit LINKRELAY): queues the frame for the link endpoint; the relay's flow state is not touched
+    #[verifier::external_body]
+    pub fn send(&mut self, frame: LinkFrame) -> (r: Result<(), ChanSendError>) ensures applied_of(*final(self)) == applied_of(*old(self)) { unimplemented!() }
+}
 pub open spec fn applied_of(r: LinkRelay) -> Seq<LinkFlow> { match r { LinkRelay::Sender { flow_state, .. } => flow_state.applied@, LinkRelay::Receiver { flow_state, .. } => flow_state.applied@ } }
 /// `releasable` (ghost): the session holds back transfers (peer's incoming window was exhausted) although the window it last computed is open
-pub struct SessionS { pub g: Ghost<int>, pub link_by_input_handle: LinkTable, pub releasable: Ghost<bool>, pub remote_incoming_window: u32, pub remote_incoming_window_exhausted_buffer: ParkedS }
+pub struct SessionS { pub g: Ghost<int>, pub link_by_input_handle: LinkTable, pub link_by_name: NameTable, pub releasable: Ghost<bool>, pub remote_incoming_window: u32, pub remote_incoming_window_exhausted_buffer: ParkedS }
 /// the session's queue of held-back transfers, reduced to whether it is empty
 pub struct ParkedS { pub n: Ghost<nat> }
 impl ParkedS {
@@ -80,6 +98,24 @@ impl LinkTable {
             old(self)@.contains_key(h.0) ==> r is Some && *r->Some_0 == old(self)@[h.0] && final(self)@ == old(self)@.insert(h.0, *final(r->Some_0)),
     { unimplemented!() }
 }
+impl LinkTable {
+    #[verifier::external_body]
+    pub fn contains_key(&self, h: &InputHandle) -> (r: bool) ensures r == self@.contains_key(h.0) { unimplemented!() }
+    #[verifier::external_body]
+    pub fn insert(&mut self, h: InputHandle, relay: LinkRelay) -> (r: Option<LinkRelay>) ensures final(self)@ == old(self)@.insert(h.0, relay) { unimplemented!() }
+}
+/// `link_by_name: HashMap<String, Option<LinkRelay<OutputHandle>>>`: None = the name is attached already
+#[verifier::external_body]
+pub struct NameTable { m: Vec<u8> }
+impl View for NameTable { type V = Map<Seq<char>, Option<LinkRelay>>; uninterp spec fn view(&self) -> Map<Seq<char>, Option<LinkRelay>>; }
+impl NameTable {
+    #[verifier::external_body]
+    pub fn get_mut(&mut self, name: &String) -> (r: Option<&mut Option<LinkRelay>>)
+        ensures
+            !old(self)@.contains_key(name@) ==> r is None && final(self)@ == old(self)@,
+            old(self)@.contains_key(name@) ==> r is Some && *r->Some_0 == old(self)@[name@] && final(self)@ == old(self)@.insert(name@, *final(r->Some_0)),
+    { unimplemented!() }
+}
 impl SessionS {
     #[verifier::external_body]
     /// Session::on_incoming_flow (unit SESSION): on Ok the window has been recomputed from the flow AND the transfers it releases are in the returned frames
@@ -89,6 +125,8 @@ impl SessionS {
     pub fn on_incoming_flow(&mut self, flow: Flow) -> (r: Result<Option<SessionOutgoingItem>, SessionInnerError>)
         ensures r is Ok ==> !final(self).releasable@,
             final(self).releasable@ == (final(self).remote_incoming_window > 0 && final(self).remote_incoming_window_exhausted_buffer.n@ > 0),
+            flow.handle is Some && !old(self).link_by_input_handle@.contains_key(flow.handle->Some_0.0) ==> r is Err && r->Err_0 is UnattachedHandle,   // [C15.flow.unattached] of unit SESSION
+            final(self).link_by_input_handle@.dom() == old(self).link_by_input_handle@.dom(),
     { unimplemented!() }
     /// Session::prepare_session_frames_from_buffered_transfers (unit SESSION, [C07.drain.complete]): afterwards nothing is held back while the window is open
     #[verifier::external_body]
@@ -126,14 +164,45 @@ impl View for PendingFlows { type V = Map<u32, Seq<LinkFlow>>; uninterp spec fn 
 pub fn pending_push(m: &mut PendingFlows, h: InputHandle, f: LinkFlow)
     ensures final(m)@ == old(m)@.insert(h.0, (if old(m)@.contains_key(h.0) { old(m)@[h.0] } else { Seq::<LinkFlow>::empty() }).push(f)),
 { unimplemented!() }
+/// `map.get_mut(&h)`
+#[verifier::external_body]
+pub fn pending_get_mut<'a>(m: &'a mut PendingFlows, h: &InputHandle) -> (r: Option<&'a mut Vec<LinkFlow>>)
+    ensures
+        !old(m)@.contains_key(h.0) ==> r is None && final(m)@ == old(m)@,
+        old(m)@.contains_key(h.0) ==> r is Some && (*r->Some_0)@ == old(m)@[h.0] && final(m)@ == old(m)@.insert(h.0, (*final(r->Some_0))@),
+{ unimplemented!() }
+/// `map.entry(h).or_default();`
+#[verifier::external_body]
+pub fn pending_note(m: &mut PendingFlows, h: InputHandle)
+    ensures final(m)@ == (if old(m)@.contains_key(h.0) { old(m)@ } else { old(m)@.insert(h.0, Seq::<LinkFlow>::empty()) }),
+{ unimplemented!() }
 /// `pending_attach` (ghost): the peer's handles whose attach has been queued for the application's LinkAcceptor (link_listener) and not been accepted yet -- they are registered in link_by_input_handle only by allocate_incoming_link
-pub struct ListenerSession { pub session: SessionS, pub pending_link_flows: PendingFlows, pub pending_attach: Ghost<Set<u32>> }
+pub struct ListenerSession { pub session: SessionS, pub link_listener: ChanSender<Attach>, pub pending_link_flows: PendingFlows, pub pending_attach: Ghost<Set<u32>> }
 pub struct Detach { pub handle: Handle, pub closed: bool }
 
 impl ListenerSession {
+//@@ fn file=fe2o3-amqp/src/acceptor/session.rs impl=`impl endpoint::Session for ListenerSession` name=on_incoming_attach
+//@@ ret Result<(), SessionInnerError>
+//@@ subst `|_v0|` => `|_v0: ChanSendError|` rule=optional-R5
+//@@ subst `attach.handle.clone().into()` => `InputHandle::from(attach.handle.clone())` rule=R16
+//@@ subst `self.pending_link_flows.entry(input_handle).or_default();` => `pending_note(&mut self.pending_link_flows, input_handle);` rule=optional-R15
+//@@ spec
+    ensures
+        old(self).session.link_by_input_handle@.contains_key(attach.handle.0)
+            ==> r == Err::<(), SessionInnerError>(SessionInnerError::HandleInUse) && final(self).session.link_by_input_handle == old(self).session.link_by_input_handle
+                && final(self).link_listener.sent@ == old(self).link_listener.sent@,                                  // [C11.route.handle-in-use-refused] (listener side) an attach for a handle that still designates an attached link is refused and reaches neither a link nor the acceptor
+        r is Ok && final(self).link_listener.sent@.len() != old(self).link_listener.sent@.len()
+            ==> final(self).link_listener.sent@ == old(self).link_listener.sent@.push(attach)
+                && final(self).pending_link_flows@.dom() =~= old(self).pending_link_flows@.dom().insert(attach.handle.0),   // [C15.listener.pending-attach-recorded] an attach handed to the application's acceptor marks exactly its own handle as "attach pending" (an entry of pending_link_flows): only for such handles does the session keep pipelined flows ([C15.listener.flow-for-unknown-handle-refused])
+        final(self).link_listener.sent@.len() == old(self).link_listener.sent@.len() || r is Err
+            ==> final(self).pending_link_flows@ == old(self).pending_link_flows@,                                    // [C15.listener.pending-only-for-queued-attach] nothing else makes a handle pending
+        forall|h: u32| old(self).pending_link_flows@.contains_key(h) ==> final(self).pending_link_flows@.contains_key(h) && final(self).pending_link_flows@[h] == old(self).pending_link_flows@[h],   // [C11.listener.flow-kept-for-its-handle] flows already kept are not disturbed by a later attach
+//@@ end
+
 //@@ fn file=fe2o3-amqp/src/acceptor/session.rs impl=`impl endpoint::Session for ListenerSession` name=on_incoming_flow
 //@@ ret Result<Option<SessionOutgoingItem>, SessionInnerError>
-//@@ subst `self.pending_link_flows .entry(input_handle) .or_default() .push(link_flow);` => `pending_push(&mut self.pending_link_flows, input_handle, link_flow);` rule=R15
+//@@ subst `self.pending_link_flows.get_mut(&input_handle)` => `pending_get_mut(&mut self.pending_link_flows, &input_handle)` rule=optional-R15
+//@@ subst `self.pending_link_flows .entry(input_handle) .or_default() .push(link_flow);` => `pending_push(&mut self.pending_link_flows, input_handle, link_flow);` rule=optional-R15
 //@@ spec
     ensures
         // a link flow for a handle that is not attached (yet): kept for the link that may be accepted under that handle, the session goes on
@@ -142,7 +211,10 @@ impl ListenerSession {
             let before = if old(self).pending_link_flows@.contains_key(h) { old(self).pending_link_flows@[h] } else { Seq::<LinkFlow>::empty() };
             &&& final(self).pending_link_flows@ == old(self).pending_link_flows@.insert(h, before.push(LinkFlow { handle: flow.handle->Some_0, rest: flow.rest }))   // [C15.listener.flow-unattached-buffered] exactly this flow is appended under exactly its own handle (arrival order kept), nothing else is touched [C11.listener.flow-kept-for-its-handle]
         }),
-        r is Err ==> final(self).pending_link_flows@ == old(self).pending_link_flows@ && !(r->Err_0 is UnattachedHandle),   // [C15.listener.unattached-not-fatal] a flow for an unattached handle never ends the listener session; every other error of the session is passed on unchanged
+        r is Err ==> final(self).pending_link_flows@ == old(self).pending_link_flows@,
+        flow.handle is Some && old(self).pending_link_flows@.contains_key(flow.handle->Some_0.0) ==> !(r is Err && r->Err_0 is UnattachedHandle),   // [C15.listener.unattached-not-fatal] a flow pipelined behind an attach that the application has not accepted yet never ends the listener session
+        flow.handle is Some && !old(self).pending_link_flows@.contains_key(flow.handle->Some_0.0) ==> final(self).pending_link_flows@ == old(self).pending_link_flows@,   // [C15.listener.flow-for-unknown-handle-refused] a flow naming a handle that is neither attached nor waiting to be accepted is not retained (10 000 such flows used to be kept for the life of the session, 2^32 handles to choose from): it is answered as the protocol says -- whatever Session::on_incoming_flow made of it (unattached-handle) is passed on
+        flow.handle is Some && !old(self).pending_link_flows@.contains_key(flow.handle->Some_0.0) && !old(self).session.link_by_input_handle@.contains_key(flow.handle->Some_0.0) ==> r is Err,   // [C15.listener.flow-for-unknown-handle-is-an-error] ... and that is an error visible to the application (the session ends with unattached-handle), as on the client side
         r is Ok ==> !final(self).session.releasable@,           // [C07.listener.flow-reopening-window-drains] a flow that re-opens the peer's incoming window releases the transfers the session had parked -- also when its LINK part names a handle that is not accepted yet: swallowing that error must not swallow the drain (the parked transfers would wait for some unrelated later frame, possibly for ever)
 //@@ end
 
